@@ -86,5 +86,22 @@ CHECKS["C07"] = {
             "allocation failure, stack depth. The general 'never panics' statement over the whole pipeline is not a theorem; the builder's no-panic invariant is an open T2 obligation.",
 }
 
+CHECKS["C03"] = {
+    "text": "Proofs (all closed under the global context): constant folding of + - * / % returns the EXACT integer result or rejects, never another "
+            "value -- division/modulo by zero and 64-bit overflow are rejected, the only over-rejection being MIN % -1 (C03_fold_arith); a << b is accepted "
+            "exactly when a*2^b is representable and then equals it (C03_fold_shl, after the repair of F5), a >> b is floor(a/2^b), negative or huge shift "
+            "counts are rejected; unary minus, comparisons; an accepted integer literal denotes the mathematical value of its digit string in its radix "
+            "(C03_integer_literal), integer-vs-float classification (C03_number_classification); exactly the ES single-character escapes are decoded, to the ES "
+            "values, \\xHH is 16*H1+H0, code point escapes are accepted exactly for Unicode scalar values. Tie to the code: number spellings by the ES grammar and "
+            "string bodies over every escape form go through the real parser and are compared with model/Literal.v (decimal->binary64 by exact rational "
+            "rounding, bit for bit against Rust), the operator x sign x magnitude matrix of constant expressions through tir::build + evaluate_code against "
+            "model/Ceval.v, both also judged by independent Python oracles; constant bindings in documents are read back from the real .ui with an XML parser.",
+    "technique": "Coq proofs about the folding and literal-decoding models; differential execution (literal enumeration, boundary matrix) against the real parser/builder/interpreter; read-back of the .ui",
+    "design_ref": "5 C03",
+    "note": "Trusted: SpecFloat's rounding (Flocq's definition) for decimal->binary64, compared bit-for-bit with Rust's parser; Rust's Display for f64 (checked by read-back only); "
+            "tree-sitter's literal token rules (lexer rejections are counted, not modelled). F5 repaired by a fix: commit. Folded string comparison uses code-point order (F11) -- "
+            "differs from UTF-16 order only for non-BMP vs U+E000..U+FFFF; not judged here.",
+}
+
 NOT_YET = {
 }
